@@ -247,6 +247,28 @@ def model_copy(ctx, rep, direction):
                         bad.append("%s: file opened in text mode %s (newline translation / decoding: not byte for byte)" % (label, sorted(modes)))
                     if src_fs.files != sfiles or src_fs.dirs != sdirs:
                         bad.append("%s: the source tree was modified" % label)
+    # a transfer that cannot succeed (a nested destination name is occupied by a directory) must not be reported as done
+    runs += 1
+    sfiles, sdirs = _tree("src")
+    src_fs = _FS(sfiles, sdirs)
+    dst_fs = _FS({}, {"out", "out/copy", "out/copy/sub", "out/copy/sub/b.dat"})
+    local, remote = (src_fs, dst_fs) if direction == "upload" else (dst_fs, src_fs)
+    conn_obj = _NS(modules=_NS(os=_os_ns(remote), glob=_NS(glob=remote.glob)), builtin=_NS(open=remote.open), builtins=_NS(open=remote.open))
+    extra = {"__calls__": {}, "__max_iter__": 5000}
+    glob = {"os": _os_ns(local), "open": local.open, "glob": _NS(glob=local.glob)}
+    for nm, f in fnodes.items():
+        glob[nm] = (lambda f: lambda *a, **k: MI.call_function(f.node, list(a), extra, k))(f)
+    extra["__globals__"] = glob
+    extra["__global_lookup__"] = _glookup(ctx, mod)
+    try:
+        MI.call_function(top.node, [conn_obj, "src", "out/copy"], extra, {"chunk_size": 256})
+        want_f, want_d = _expected(sfiles, sdirs, "src", "out/copy", None)
+        if dst_fs.files != want_f:
+            bad.append("%s of a tree whose nested destination `sub/b.dat` is occupied by a directory returns normally although %d file(s) "
+                       "were not copied: an I/O error during the transfer is swallowed and the copy is reported as done"
+                       % (direction, len(set(want_f) - set(dst_fs.files))))
+    except MI.Raised:
+        pass
     # an invalid path
     for ignore, want_raise in ((False, True), (True, False)):
         runs += 1
